@@ -56,3 +56,42 @@ VARIANTS = [
          [(RS, "        if relative_frequencies is None:\n            self._relative_frequencies = numpy.zeros", "        if not (relative_frequencies is None):\n            self._relative_frequencies = numpy.zeros")],
          ("C15.8", "zero-counts-when-none-given"), ("C15",)),
 ]
+
+GEN = "src/jaqalpaq/generator/generator.py"
+FM = "src/jaqalpaq/core/algorithm/fill_in_map.py"
+FL = "src/jaqalpaq/core/algorithm/fill_in_let.py"
+SLY = "src/jaqalpaq/parser/slyparse.py"
+PA = "src/jaqalpaq/core/parameter.py"
+VARIANTS += [
+    # round 5 (regressions of recent repairs)
+    fire("r5-open-bound-by-truthiness",
+         [(GEN, '    stop = "" if s.stop is None else generate_jaqal_value(s.stop)', '    stop = generate_jaqal_value(s.stop) if s.stop else ""')],
+         ("C01.7", "notate_slice:truthiness:s.stop"), ("C01",)),
+    fire("r5-emulator-cache-on-qubits",
+         [(UN, "\nclass EmulatorSubcircuit(", "\nfrom functools import lru_cache\n\n\n@lru_cache(maxsize=None)\ndef _qubit_index(qubit):\n    return qubit.resolve_qubit()[1]\n\n\nclass EmulatorSubcircuit(")],
+         ("*", "_qubit_index:cache-keyed-on-objects"), ("C03", "C16")),
+    fire("r5-shadow-test-on-direct-source",
+         [(FM, "        if reg.name in self.shadowed:\n", "        if qubit.alias_from.name in self.shadowed:\n")],
+         ("*", "MapFiller.visit_NamedQubit:shadowed-register-name"), ("C06", "C10")),
+    fire("r5-zero-trip-misses-negative-counts",
+         [(WK, "        if loop.iterations <= 0:\n", "        if not loop.iterations:\n")],
+         ("*", "TraceVisitor.visit_LoopStatement:zero-trip"), ("C08", "C16")),
+    fire("r5-count-constant-frozen-by-value",
+         [(EM, "        new_count = filter_float(self.visit(count))\n", "        new_count = self.visit(count)\n        if isinstance(new_count, Constant):\n            new_count = new_count.value\n        new_count = filter_float(new_count)\n")],
+         ("C10.8", "GateReplacer.substitute_count:constant-value-read"), ("C10",)),
+    fire("r5-overlap-test-on-elements",
+         [(UQ, "            if disjoint and (tgt & src):", "            if disjoint and any(tgt & src):")],
+         ("C13.2", "merge_into:intersection-truth"), ("C13",)),
+    fire("r5-substituted-index-truncated",
+         [(FL, "            new_index = self.resolve_constant(qubit.alias_index)\n", "            new_index = int(self.resolve_constant(qubit.alias_index))\n", 0)],
+         ("C05.12", "LetFiller.visit_NamedQubit:truncation"), ("C05",)),
+    fire("r5-string-branch-negated-int-test",
+         [(RS, "        if isinstance(nxt, str):\n", "        if not isinstance(nxt, int):\n")],
+         ("C15.9", "OutputParser.process_trace:string-branch"), ("C15",)),
+    fire("r5-only-positive-infinity-rejected",
+         [(SLY, '        if token.value in (float("inf"), float("-inf")):\n', '        if token.value == float("inf"):\n')],
+         ("*", "JaqalLexer.NUMBER:finite"), ("C01", "C16")),
+    fire("r5-float-kind-without-payload-test",
+         [(PA, '                and isinstance(getattr(value, "value", None), float)\n                and value.value.is_integer()\n', '                and getattr(getattr(value, "value", None), "is_integer", lambda: True)()\n')],
+         ("C18.4", "Parameter.validate:float-kind-needs-float-payload"), ("C18",)),
+]
